@@ -81,8 +81,9 @@ let split_on c s = String.split_on_char c s
 
 let () =
   self_check ();
-  let args = List.filter (fun a -> a <> "--raw") (List.tl (Array.to_list Sys.argv)) in
+  let args = List.filter (fun a -> a <> "--raw" && a <> "--socket") (List.tl (Array.to_list Sys.argv)) in
   let raw = List.mem "--raw" (Array.to_list Sys.argv) in
+  let socket = List.mem "--socket" (Array.to_list Sys.argv) in
   let ic = match args with f :: _ -> open_in f | [] -> stdin in
   let oc = stdout in
   let w = ref (init_world (n_of_int 1024) None) in
@@ -95,10 +96,15 @@ let () =
     List.iter (fun l -> output_string oc l; output_char oc '\n') (if raw then lines else List.sort Stdlib.compare lines);
     Printf.fprintf oc "U %s %s %s\n" (string_of_n st.s_usage) (string_of_n st.s_now)
       (string_of_n (total st.s_mem)) in
-  let status conn_i =
+  let status_full conn_i =
     let cn = get_conn !w.w_limit (nat_of_int conn_i) !w.w_conns in
     Printf.fprintf oc "S %d %s %s %s\n" conn_i (string_of_n (status_code cn))
       (string_of_n (blen cn.cn_buf)) (string_of_n cn.cn_skip) in
+  (* what a socket peer can tell: open (0) or closed (1) *)
+  let status_socket conn_i =
+    let cn = get_conn !w.w_limit (nat_of_int conn_i) !w.w_conns in
+    Printf.fprintf oc "S %d %d\n" conn_i (if int_of_n (status_code cn) = 0 then 0 else 1) in
+  let status conn_i = if socket then () else status_full conn_i in
   let do_event e =
     let (w1, outs) = step !w e in
     w := w1;
@@ -111,12 +117,23 @@ let () =
           let ml = if ml = "none" then None else Some (n_of_string ml) in
           w := init_world (n_of_string il) ml;
           Printf.fprintf oc "CASE %s\n" id
+      | ["CASE"; id; il; ml; cas0; now0] ->
+          let ml = if ml = "none" then None else Some (n_of_string ml) in
+          w := init_world_at (n_of_string il) ml (n_of_string cas0) (n_of_string now0);
+          Printf.fprintf oc "CASE %s\n" id
       | ["C"; c; hex] ->
           let c = int_of_string c in
           do_event (EvChunk (nat_of_int c, bytes_of_hex hex)); status c
       | ["E"; c] ->
           let c = int_of_string c in
           do_event (EvEof (nat_of_int c)); status c
+      | ["X"; c] ->
+          let c = int_of_string c in
+          do_event (EvReset (nat_of_int c)); status c
+      | ["I"; c] ->
+          let c = int_of_string c in
+          do_event (EvTimeout (nat_of_int c)); status c
+      | ["G"; c] -> status_socket (int_of_string c)
       | ["T"; d] -> do_event (EvTick (n_of_string d))
       | ["O"] -> do_event (EvOracle [])
       | ["O"; l] ->
